@@ -4,6 +4,8 @@ import (
 	"errors"
 	"fmt"
 	"io"
+	"net"
+	"reflect"
 	"runtime"
 	"strconv"
 	"sync"
@@ -311,6 +313,125 @@ func genC13(o *hx.Out, tier string) {
 			verdict += " | CLOSE-DID-NOT-RETURN"
 		}
 		o.Add("stall then read failure", verdict, "expect", "ok", fmt.Sprintf("stall-then-fail k=%d", kth))
+	}
+	// ---- a TCP peer stops reading for longer than the write time-out while the node has more to
+	// send than the socket buffers hold (writes are cut by the deadline, some in the middle of a
+	// frame), then reads again: the channel is closed and reported, or later writes arrive ----
+	{
+		cd := shipped("common")
+		cdrw := &dialect.ReadWriter{Dialect: cd}
+		cdrw.Initialize() //nolint:errcheck
+		addr := fmt.Sprintf("127.0.0.1:%d", 29000+int(hx.Seed()%100)*10)
+		verdict := "ok"
+		node, err := gomavlib.NewNode(gomavlib.NodeConf{Endpoints: []gomavlib.EndpointConf{gomavlib.EndpointTCPServer{Address: addr}},
+			Dialect: cd, OutVersion: gomavlib.V2, OutSystemID: 10, HeartbeatDisable: true, WriteTimeout: 200 * time.Millisecond})
+		if err != nil {
+			verdict = "NODE-FAILED " + err.Error()
+		} else {
+			col := scn.NewCollector(node, 0, false)
+			peer, err := net.Dial("tcp4", addr)
+			if err != nil {
+				verdict = "DIAL-FAILED"
+			} else {
+				hb := cdrw.GetMessage(0)
+				hbFrame := func(mode uint32) []byte {
+					m := hx.RandMessage(r, cd.Messages[0], 0)
+					reflect.ValueOf(m).Elem().FieldByName("CustomMode").SetUint(uint64(mode))
+					f := &frame.V2Frame{SystemID: 9, ComponentID: 1, Message: hb.Write(m, true)}
+					f.Checksum = f.GenerateChecksum(hb.CRCExtra())
+					return frameBytes(cdrw, f)
+				}
+				peer.Write(hbFrame(1)) //nolint:errcheck
+				col.Wait(func() bool { return len(col.Channels()) > 0 })
+				chs := col.Channels()
+				if len(chs) == 0 {
+					verdict = "CHANNEL-NOT-OPEN"
+				} else {
+					ch := chs[0]
+					var big message.Message
+					for _, m := range cd.Messages {
+						if m.GetID() == 131 { // ENCAPSULATED_DATA: 255 bytes
+							big = hx.RandMessage(r, m, 1)
+						}
+					}
+					t0 := time.Now()
+					sent := 0
+					for time.Since(t0) < 2500*time.Millisecond {
+						for i := 0; i < 32; i++ {
+							node.WriteMessageTo(ch, big) //nolint:errcheck
+							sent++
+						}
+						time.Sleep(200 * time.Microsecond)
+					}
+					time.Sleep(700 * time.Millisecond) // at least one write has run into the deadline by now
+					// the peer reads again, everything there is
+					var mu sync.Mutex
+					var got []uint32
+					last := time.Now()
+					go func() {
+						rd := &frame.Reader{ByteReader: peer, DialectRW: cdrw}
+						rd.Initialize() //nolint:errcheck
+						for {
+							fr, err := rd.Read()
+							mu.Lock()
+							last = time.Now()
+							mu.Unlock()
+							if err != nil {
+								var pe frame.ReadError
+								if errors.As(err, &pe) {
+									continue
+								}
+								return
+							}
+							if fr.GetMessage().GetID() == 0 {
+								mode := uint32(reflect.ValueOf(fr.GetMessage()).Elem().FieldByName("CustomMode").Uint())
+								mu.Lock()
+								got = append(got, mode)
+								mu.Unlock()
+							}
+						}
+					}()
+					for {
+						time.Sleep(100 * time.Millisecond)
+						mu.Lock()
+						quiet := time.Since(last) > 700*time.Millisecond
+						mu.Unlock()
+						if quiet {
+							break
+						}
+					}
+					peer.Write(hbFrame(2)) //nolint:errcheck
+					const markers = 10
+					for i := 0; i < markers; i++ {
+						m := hx.RandMessage(r, cd.Messages[0], 0)
+						reflect.ValueOf(m).Elem().FieldByName("CustomMode").SetUint(uint64(0xC1300000 + i))
+						node.WriteMessageTo(ch, m) //nolint:errcheck
+						time.Sleep(30 * time.Millisecond)
+					}
+					time.Sleep(1200 * time.Millisecond)
+					closed := false
+					for _, e := range col.Events(ch) {
+						if _, ok := e.(*gomavlib.EventChannelClose); ok {
+							closed = true
+						}
+					}
+					mu.Lock()
+					nm := 0
+					for _, g := range got {
+						if g >= 0xC1300000 && g < 0xC1300000+markers {
+							nm++
+						}
+					}
+					mu.Unlock()
+					if !closed && nm != markers {
+						verdict = fmt.Sprintf("OPEN-BUT-DISCARDING-OUTPUT %d of %d later writes arrived, no close event (flooded %d messages)", nm, markers, sent)
+					}
+				}
+				peer.Close()
+			}
+			scn.CloseWithin(node, 10*time.Second)
+		}
+		o.Add("tcp peer stalls past the write time-out, then resumes", verdict, "expect", "ok", "tcp-stall-resume")
 	}
 	runtime.GOMAXPROCS(runtime.NumCPU())
 }
